@@ -4,6 +4,7 @@
 cd /verif
 for sd in "$@"; do
   id=$(basename $sd | cut -d- -f1); d=$sd/patch.diff
+  case "$id" in fix) id=$(python3 -c "import json,sys;print(json.load(open('$sd/meta.json'))['property'].split()[0].strip(','))");; esac
   [ -f "$d" ] || continue
   out=$(SKIP_TESTS=1 ./tools_try_mutant.sh "$d" $id quick 2>&1)
   rc=$(echo "$out" | grep -o "check_rc=[0-9]*" | cut -d= -f2); tier=quick
